@@ -181,7 +181,11 @@ def _rv(x):
     if isinstance(x, float):
         if x != x or x in (float('inf'), float('-inf')):
             raise NonFinite('non-finite constant %r' % x)
-        return z3.RealVal(repr(x))
+        r = repr(x)
+        if 'e' in r or 'E' in r:
+            from decimal import Decimal
+            return z3.RealVal(str(Fraction(Decimal(r))))      # z3 does not read exponent notation
+        return z3.RealVal(r)
     raise TypeError(type(x))
 
 
